@@ -293,11 +293,8 @@ class BCHCodeEncoder(CyclicCodeEncoder):
         """Compute the parity check matrix from the generator matrix."""
         # For a systematic code, the check matrix H can be derived from the generator matrix G.
         # If G = [I_k | P], then H = [P^T | I_(n-k)]
-        identity_part = torch.eye(self._redundancy, dtype=self._dtype, device=self.generator_matrix.device)
-        parity_part = self.generator_matrix[:, self._dimension :].T
-
-        # Construct H = [P^T | I_m]
-        self._check_matrix = torch.cat([parity_part, identity_part], dim=1)
+        super()._compute_check_matrix()
+        self._check_matrix = self._check_matrix.to(self._dtype)
 
     @property
     def mu(self) -> int:
